@@ -325,8 +325,13 @@ func (g *Generator) Generate(dict *dictionary.Dictionary) ([]byte, error) {
 			}
 		}
 
-		vendorAttributes := make([]*dictionary.Attribute, len(vendor.Attributes))
-		copy(vendorAttributes, vendor.Attributes)
+		vendorAttributes := make([]*dictionary.Attribute, 0, len(vendor.Attributes))
+		for _, attr := range vendor.Attributes {
+			if _, ignored := ignoredAttributes[attr.Name]; ignored {
+				continue
+			}
+			vendorAttributes = append(vendorAttributes, attr)
+		}
 		dictionary.SortAttributes(vendorAttributes)
 
 		vendorValues := make([]*dictionary.Value, len(vendor.Values))
